@@ -60,7 +60,7 @@ def check(R, strategy, scitype, n, w, fh, ncols, l0=0, updates=0):
     from sktime.forecasting.compose import make_reduction
     LOG.clear()
     rng = np.random.RandomState(n * 100 + w)
-    yv = np.round(rng.rand(n + 10) * 10, 3) + np.arange(n + 10)
+    yv = np.round(rng.rand(n + 14) * 10, 3) + np.arange(n + 14)
     y = pd.Series(yv[:n], index=pd.RangeIndex(l0, l0 + n))
     X = pd.DataFrame(np.round(rng.rand(n + 4 + max(fh), ncols) * 5, 3), index=pd.RangeIndex(l0, l0 + n + 4 + max(fh))) if ncols else None
     Xtr = X.iloc[:n] if ncols else None
@@ -112,7 +112,7 @@ def check(R, strategy, scitype, n, w, fh, ncols, l0=0, updates=0):
     if updates == -1:
         # update_predict over later data remembers it but restores the cutoff: the forecast must still be made
         # from the window that ENDS AT THE CUTOFF, not from the end of the remembered data
-        k = max(fh) + 2
+        k = w + max(fh) + 1
         ynew = pd.Series(yv[n: n + k], index=pd.RangeIndex(l0 + n, l0 + n + k))
         try:
             f.update_predict(ynew, update_params=False)
